@@ -124,7 +124,9 @@ def specRuns (sp : Spec) (impl : String) : Spec :=
   let toks := Drv.implToks impl
   match toks.findSome? (Drv.tokNat "runs="), toks.findSome? (Drv.tokNat "max=") with
   | some a, some m =>
-    if m > 1 then sp.fail s!"{m} Run() invocations of the static source were alive at the same time"
+    if toks.contains "conf=stale" then
+      sp.fail "a Run() of the static source was started with a configuration other than the one in force (hot reload lost on restart)"
+    else if m > 1 then sp.fail s!"{m} Run() invocations of the static source were alive at the same time"
     else if a > 0 && !sp.srcOn then
       sp.fail s!"the static source handler is stopped but {a} Run() of its instance is still alive"
     else sp
